@@ -376,7 +376,57 @@ def check_shipped(ctx, libname, gname, ui):
         ctx.klass('shipped groups')
 
 
+def check_threads(ctx, key=None, rounds=3):
+    """Formatting and reading back are functions of (object, unit choice) and
+    of the text: shared correlation objects formatted in several unit choices
+    and the texts loaded back, by four threads at once, give the text and the
+    object a lone caller gets."""
+    from vmon.core import threads as TH
+    from pgradd import yaml_io
+    from pgradd.ThermoChem import ThermochemGroup
+    key = key or 'thr%d_%d' % (ctx.seed, ctx.shard)
+    r = random.Random('c18thr:%s' % key)
+    datas = []
+    while len(datas) < 8:
+        g = gen_tie_corr(r) if r.random() < 0.4 else gen_corr(r)
+        g.pop('layout', None)
+        try:
+            ThermochemGroup(g['H'], g['S'], dict(g['Cp']), g['T_ref'],
+                            tuple(g['range']) if g['range'] else None)
+        except Exception:
+            continue
+        datas.append(g)
+    choices = []
+    for g in datas:
+        u = dict(r.choice(UNIT_CHOICES))
+        tu = r.choice(TIE_T_UNITS)
+        if tu:
+            u['temperature'] = tu
+        choices.append(u)
+
+    def make_jobs():
+        jobs = []
+        for k, g in enumerate(datas):
+            obj = ThermochemGroup(g['H'], g['S'], dict(g['Cp']), g['T_ref'],
+                                  tuple(g['range']) if g['range'] else None)
+            for j in (0, 1):
+                u = choices[(k + j) % len(choices)]
+                jobs.append(((k, 'format', j),
+                             lambda obj=obj, u=u: obj.yaml_format(u)))
+
+                def back(obj=obj, u=u):
+                    doc = '!ThermochemGroup\n' + obj.yaml_format(u) + '\n'
+                    return repr(snapshot(yaml_io.load(yaml_io.parse(doc))))
+                jobs.append(((k, 'format and load back', j), back))
+        return jobs
+    res = TH.stress(make_jobs, nthreads=4, rounds=rounds)
+    TH.judge(ctx, res, 'yaml_format and loading back',
+             {'what': 'thread stress', 'key': key})
+
+
 def run_shard(ctx):
+    if ctx.shard % 4 == 0:
+        check_threads(ctx)
     n = 2500 if ctx.tier == 'quick' else 30000
     for i in range(n):
         if ctx.mine(i):
@@ -398,6 +448,8 @@ def run_shard(ctx):
 
 
 def replay(ctx, case):
+    if case.get('what') == 'thread stress':
+        return check_threads(ctx, case['key'], rounds=10)
     if 'shipped' in case:
         check_shipped(ctx, case['shipped'][0], case['shipped'][1],
                       case['ui'])
